@@ -355,3 +355,20 @@ Print Assumptions mrt_panic.
 Print Assumptions loop_nat_add.
 Print Assumptions loop_pos_nat.
 Print Assumptions loopN_nat.
+
+(* zero-length steps are skipped when interval lengths are converted to offsets: on a list of positive steps the
+   filter is the identity *)
+Lemma filter_pos_id : forall l : list N, (forall d, In d l -> 1 <= d) -> filter (fun d => 0 <? d) l = l.
+Proof.
+  intros l. induction l as [|x l IH]; intros H; cbn [filter]; [reflexivity|].
+  assert (Hx : 1 <= x) by (apply H; left; reflexivity).
+  destruct (N.ltb_spec 0 x) as [_|Hc]; [|lia].
+  f_equal. apply IH. intros d Hd. apply H. right. exact Hd.
+Qed.
+
+Lemma in_filter_pos : forall (l : list N) d, In d (filter (fun d => 0 <? d) l) <-> In d l /\ 1 <= d.
+Proof.
+  intros l d. rewrite filter_In. split; intros (H1 & H2); (split; [exact H1|]).
+  - apply N.ltb_lt in H2. lia.
+  - apply N.ltb_lt. lia.
+Qed.
